@@ -270,6 +270,10 @@ type Case struct {
 	H    []Req `json:",omitempty"`
 	Conc int   `json:",omitempty"` // kind A: serve the history on this many goroutines
 	Wire bool  `json:",omitempty"` // kind R: through a real HTTP server and client (what the client really received)
+	// kind M (stack.go): standalone layers outermost first, what is at the bottom (mux | app), the history
+	Term  string   `json:",omitempty"`
+	Stack []string `json:",omitempty"`
+	MH    []MReq   `json:",omitempty"`
 }
 
 // ---------------------------------------------------------------- probe handlers
@@ -1306,6 +1310,8 @@ func run(id string, cs Case) string {
 			done <- runA(id, cs)
 		case "AW":
 			done <- runAW(id, cs)
+		case "M":
+			done <- runM(id, cs)
 		default:
 			done <- runR(id, cs)
 		}
@@ -1427,6 +1433,24 @@ func main() {
 			st.Count("AW-histories")
 			st.Case(fmt.Sprintf("%+v", cs), true)
 			fmt.Fprintln(w, run(fmt.Sprintf("c08-%d-w%d", a.Seed, k), cs))
+		}
+		// kind M: stacks of standalone layers in front of a plain handler / an app (stack.go)
+		for k, cs := range mWitnesses() {
+			st.Count("M-histories")
+			st.Case(fmt.Sprintf("%+v", cs), true)
+			fmt.Fprintln(w, run(fmt.Sprintf("c08-mw%d", k), cs))
+		}
+		nM := a.N / 60
+		for k := 0; k < nM; k++ {
+			cs := Case{Kind: "M", Term: hx.Pick(r, []string{"mux", "app", "app"}), Stack: mStacks[(k+int(a.Seed))%len(mStacks)]}
+			n := r.Range(1, 12)
+			for j := 0; j < n; j++ {
+				cs.MH = append(cs.MH, genMReq(r))
+			}
+			st.Count("M-histories")
+			st.Count("M-stack:" + strings.Join(cs.Stack, ">") + ">" + cs.Term)
+			st.Case(fmt.Sprintf("%+v", cs), len(cs.Stack) > 0)
+			fmt.Fprintln(w, run(fmt.Sprintf("c08-%d-m%d", a.Seed, k), cs))
 		}
 		if n := abortNotSeen.Load(); n > 0 {
 			st.Counters["abort-not-seen-by-server-within-3s(discarded)"] = int(n)
